@@ -7,6 +7,7 @@ import (
 	"fmt"
 	"io"
 	"net"
+	"os"
 	"runtime"
 	"sync"
 	"sync/atomic"
@@ -54,7 +55,7 @@ func runC11(c C11Case) ev.Outcome {
 		run = runC11Listener
 	}
 	// a failed time clause is confirmed by re-executing the same case before it is reported
-	return withHangConfirmation(c, func() (ev.Outcome, bool) { return run(c) })
+	return withHangConfirmation("C11", c, func() (ev.Outcome, bool) { return run(c) })
 }
 
 // ---------------------------------------------------------------------------------------
@@ -481,6 +482,7 @@ func (r *c11run) waitSettled(allDone, primDone chan struct{}, stackDump *string)
 	last, lastChange := r.progress.Load(), time.Now()
 	tk := time.NewTicker(20 * time.Millisecond)
 	defer tk.Stop()
+	idleTicks := 0 // ticks seen without progress: a frozen process must not look like a hang
 	for {
 		select {
 		case <-allDone:
@@ -495,9 +497,10 @@ func (r *c11run) waitSettled(allDone, primDone chan struct{}, stackDump *string)
 			return settledExited
 		case <-r.poke:
 		case <-tk.C:
+			idleTicks++
 		}
 		if p := r.progress.Load(); p != last {
-			last, lastChange = p, time.Now()
+			last, lastChange, idleTicks = p, time.Now(), 0
 			continue
 		}
 		idle := time.Since(lastChange)
@@ -511,11 +514,11 @@ func (r *c11run) waitSettled(allDone, primDone chan struct{}, stackDump *string)
 			default:
 			}
 			if r.eventsWaiting.Load() > 0 || r.eventsRunning.Load() > 0 {
-				lastChange = time.Now()
+				lastChange, idleTicks = time.Now(), 0
 				continue
 			}
 		}
-		if idle > hangAfter {
+		if idle > hangAfter && idleTicks >= int(hangAfter/(20*time.Millisecond))/2 {
 			*stackDump = stacks()
 			r.analyseStuck(primDone)
 			if r.hang == "" {
@@ -537,7 +540,14 @@ const (
 
 // stuckAfter: how long the case waits, without any progress, for frames that were written
 // without error before it goes on to the final Close anyway (no verdict depends on it).
-const stuckAfter = 2 * time.Second
+var stuckAfter = func() time.Duration {
+	if v := os.Getenv("MUX_STUCK_AFTER"); v != "" { // harness self-test: exercise the path often
+		if d, err := time.ParseDuration(v); err == nil {
+			return d
+		}
+	}
+	return 2 * time.Second
+}()
 
 // mustReturnPending: some call is in progress that has to return (started after an error was
 // observed on its connection), or a failure/stale-close event is being applied.
